@@ -102,67 +102,11 @@ func timeOperandIndexSeeded(c *Ctx, u FuncUnit, argsP types.Object, seed map[typ
 			// helper: t1, t2, err := helper(env, args)
 			if len(as.Rhs) == 1 && len(as.Lhs) >= 2 {
 				if ce, ok := ast.Unparen(as.Rhs[0]).(*ast.CallExpr); ok {
-					fn := originOf(Callee(info, ce))
-					if fn != nil && fn.Pkg() == u.Obj.Pkg() {
-						if fd := c.declOf[fn]; fd != nil && fd.Body != nil {
-							// which helper param receives args?
-							hu := FuncUnit{fn, fd, c.pkgOf[fd]}
-							var hArgs types.Object
-							ps := paramObjs(hu)
-							hseed := map[types.Object]int{}
-							for i, a := range ce.Args {
-								if i < len(ps) && argsP != nil && identObj(info, a) == argsP {
-									hArgs = ps[i]
-								} else if k, ok := cellOf(a); ok && i < len(ps) {
-									hseed[ps[i]] = k
-								}
-							}
-							if (hArgs != nil || len(hseed) > 0) && depth < 2 {
-								inner := timeOperandIndexSeeded(c, hu, hArgs, hseed, depth+1)
-								// result i -> operand index: every return statement agrees
-								res := map[int]int{}
-								bad := map[int]bool{}
-								sig := fn.Type().(*types.Signature)
-								named := map[types.Object]int{}
-								for i := 0; i < sig.Results().Len(); i++ {
-									if sig.Results().At(i).Name() != "" {
-										named[sig.Results().At(i)] = i
-									}
-								}
-								ast.Inspect(fd.Body, func(m ast.Node) bool {
-									if _, ok := m.(*ast.FuncLit); ok {
-										return false
-									}
-									rs, ok := m.(*ast.ReturnStmt)
-									if !ok {
-										return true
-									}
-									for i, r := range rs.Results {
-										ro := identObj(hu.Pkg.TypesInfo, r)
-										if ro == nil {
-											continue
-										}
-										if k, ok := inner[ro]; ok {
-											if prev, seen := res[i]; seen && prev != k {
-												bad[i] = true
-											}
-											res[i] = k
-										} else if isTimeTime(ro.Type()) {
-											// a named result not yet assigned (zero value on error paths) is fine
-											if _, isNamed := named[ro]; !isNamed {
-												bad[i] = true
-											}
-										}
-									}
-									return true
-								})
-								for i, l := range as.Lhs {
-									if k, ok := res[i]; ok && !bad[i] {
-										if o := identObj(info, l); o != nil {
-											out[o] = k
-										}
-									}
-								}
+					res := helperResultCells(c, u, argsP, cellOf, ce, depth)
+					for i, l := range as.Lhs {
+						if k, ok := res[i]; ok {
+							if o := identObj(info, l); o != nil {
+								out[o] = k
 							}
 						}
 					}
@@ -1170,4 +1114,122 @@ func init() {
 			}
 			return obs
 		}})
+}
+
+// helperResultCells: for a call ce (written in unit u, whose argument list parameter is argsP and whose
+// cell expressions cellOf recognises) of a same-package helper that is handed the argument list or some of
+// its cells: result index -> the index k of the args.Cells[k] the time.Time result was asserted from, where
+// every return of the helper agrees.  A return that forwards another helper's results (`return
+// timeNative(env, v)`) is followed.
+func helperResultCells(c *Ctx, u FuncUnit, argsP types.Object, cellOf func(ast.Expr) (int, bool), ce *ast.CallExpr, depth int) map[int]int {
+	info := u.Pkg.TypesInfo
+	out := map[int]int{}
+	fn := originOf(Callee(info, ce))
+	if fn == nil || fn.Pkg() != u.Obj.Pkg() || depth >= 3 {
+		return out
+	}
+	fd := c.declOf[fn]
+	if fd == nil || fd.Body == nil {
+		return out
+	}
+	hu := FuncUnit{fn, fd, c.pkgOf[fd]}
+	hinfo := hu.Pkg.TypesInfo
+	var hArgs types.Object
+	ps := paramObjs(hu)
+	hseed := map[types.Object]int{}
+	for i, a := range ce.Args {
+		if i < len(ps) && argsP != nil && identObj(info, a) == argsP {
+			hArgs = ps[i]
+		} else if k, ok := cellOf(a); ok && i < len(ps) {
+			hseed[ps[i]] = k
+		}
+	}
+	if hArgs == nil && len(hseed) == 0 {
+		return out
+	}
+	inner := timeOperandIndexSeeded(c, hu, hArgs, hseed, depth+1)
+	// the helper's own view of cells, for forwarded calls
+	hcellOf := func(e ast.Expr) (int, bool) {
+		e = ast.Unparen(e)
+		if ie, ok := e.(*ast.IndexExpr); ok {
+			if se, ok := ast.Unparen(ie.X).(*ast.SelectorExpr); ok && se.Sel.Name == "Cells" && hArgs != nil && identObj(hinfo, se.X) == hArgs {
+				if k, ok := intConst(hinfo, ie.Index); ok {
+					return k, true
+				}
+			}
+		}
+		if o := identObj(hinfo, e); o != nil {
+			if k, ok := hseed[o]; ok {
+				return k, true
+			}
+		}
+		return 0, false
+	}
+	res := map[int]int{}
+	bad := map[int]bool{}
+	sig := fn.Type().(*types.Signature)
+	named := map[types.Object]int{}
+	for i := 0; i < sig.Results().Len(); i++ {
+		if sig.Results().At(i).Name() != "" {
+			named[sig.Results().At(i)] = i
+		}
+	}
+	note := func(i, k int) {
+		if prev, seen := res[i]; seen && prev != k {
+			bad[i] = true
+		}
+		res[i] = k
+	}
+	ast.Inspect(fd.Body, func(m ast.Node) bool {
+		if _, ok := m.(*ast.FuncLit); ok {
+			return false
+		}
+		rs, ok := m.(*ast.ReturnStmt)
+		if !ok {
+			return true
+		}
+		if len(rs.Results) == 0 && len(named) > 0 {
+			// bare return with named results: the named results' own provenance
+			for ro, i := range named {
+				if k, ok := inner[ro]; ok {
+					note(i, k)
+				}
+			}
+			return true
+		}
+		if len(rs.Results) == 1 && sig.Results().Len() > 1 {
+			if fc, ok := ast.Unparen(rs.Results[0]).(*ast.CallExpr); ok {
+				fwd := helperResultCells(c, hu, hArgs, hcellOf, fc, depth+1)
+				for i := 0; i < sig.Results().Len(); i++ {
+					if k, ok := fwd[i]; ok {
+						note(i, k)
+					} else if isTimeTime(sig.Results().At(i).Type()) {
+						bad[i] = true
+					}
+				}
+				return true
+			}
+		}
+		for i, r := range rs.Results {
+			ro := identObj(hinfo, r)
+			if ro == nil {
+				continue
+			}
+			if k, ok := inner[ro]; ok {
+				note(i, k)
+			} else if isTimeTime(ro.Type()) {
+				// a named result not yet assigned (zero value on error paths) is fine
+				if _, isNamed := named[ro]; !isNamed {
+					bad[i] = true
+				}
+			}
+		}
+		return true
+	})
+	for i, k := range res {
+		if !bad[i] {
+			out[i] = k
+		}
+	}
+	return out
 }
